@@ -47,7 +47,9 @@ SPEC = {
     'random interleavings with n<=9, buffer_size<=4, close() at random points; real-thread soak. '
     'prefetch_to_device: all n<=6 x size<=4 x ending x device count<=2. pad_shard_unpad: all b in [1,40] x d in '
     '{1,2,3,4,8} x min_device_batch in {None,0,1,2,3,5,7,12} with a pytree of inputs, static arg and static kwarg. '
-    'scan_in_dim: ranks<=4, every axis tuple in every order for ranks 2-3 (sampled for rank 4), keepdims, four '
+    'scan_in_dim: ranks<=4, every axis tuple in every order and with every sign pattern (non-negative, negative, '
+    'mixed entries) for ranks 2-3 (sampled for rank 4), _invert_perm on all permutations of length<=5 plus all sign '
+    'patterns for length<=4, keepdims, four '
     'bodies (order-sensitive carry; output of equal / lower / higher rank; layout-sensitive output). '
     'A case is non-trivial when it has at least one item/row/scanned element; distinct = distinct canonical JSON.'
   ),
@@ -77,8 +79,11 @@ SPEC = {
     'the min(size-1, n) items already buffered are dropped - characterised exactly by theorem '
     'prefetch_to_device_exception (nothing is dropped for size=1) and checked against the implementation',
     'pad_shard_unpad: the wrapped function is per-example (row i of every output depends only on row i of the inputs)',
-    'scan_in_dim: axis is a non-empty tuple of distinct non-negative axes that fit the rank of the result; one array '
-    'in, one array out (pytrees are mapped leaf-wise by jax.tree_util); unroll only affects performance',
+    'scan_in_dim: axis is a non-empty tuple of axes, negative entries allowed (NumPy semantics -k = rank-k), distinct '
+    'after normalisation and fitting the rank of the result; a negative entry is relative to the array a transpose is '
+    'applied to, so negative axes are claimed (theorems scan_in_dim_negative_axes[_keepdims]) and generated for bodies '
+    'whose output has the rank of the input; one array in, one array out (pytrees are mapped leaf-wise by '
+    'jax.tree_util); unroll only affects performance',
   ],
   'model_partial': [],
 }
@@ -1095,12 +1100,21 @@ def check_scan_in_dim(ctx, drv, cases):
     size = int(np.prod(shape))
     data = ((np.arange(size) * 7 + 3) % 23).astype(np.int64)
     xs = data.reshape(shape)
-    r = call(lambda: ju.scan_in_dim(body_jnp(kind), jnp.asarray(init, jnp.int32), jnp.asarray(xs, jnp.int32), axis=tuple(axis), keepdims=keepdims))
-    want = nested_loop_reference(kind, init, xs, axis, keepdims)
+    # most cases run lax.scan eagerly (jax.disable_jit: same flax code, no XLA compile per axis tuple); every 6th case
+    # goes through the traced/compiled path
+    jitted = len(recs) % 6 == 0
+    ctx.count('scan_execution', 'compiled lax.scan' if jitted else 'eager lax.scan (disable_jit)')
+    if jitted:
+      r = call(lambda: ju.scan_in_dim(body_jnp(kind), jnp.asarray(init, jnp.int32), jnp.asarray(xs, jnp.int32), axis=tuple(axis), keepdims=keepdims))
+    else:
+      with jax.disable_jit():
+        r = call(lambda: jax.tree_util.tree_map(np.asarray, ju.scan_in_dim(body_jnp(kind), jnp.asarray(init, jnp.int32), jnp.asarray(xs, jnp.int32), axis=tuple(axis), keepdims=keepdims)))
+    want = nested_loop_reference(kind, init, xs, [a % len(shape) for a in axis], keepdims)  # NumPy semantics: -k = rank-k
     recs.append((r, want))
     reqs.append(('scan_in_dim', [[list(shape), data.tolist()], list(axis), keepdims, kind, init]))
-    if len(axis) == 1 and kind in (0, 3):  # an int axis is accepted as well
-      r1 = call(lambda: ju.scan_in_dim(body_jnp(kind), jnp.asarray(init, jnp.int32), jnp.asarray(xs, jnp.int32), axis=axis[0], keepdims=keepdims))
+    if len(axis) == 1 and kind in (0, 3):  # an int axis (also a negative one) is accepted as well
+      with jax.disable_jit():
+        r1 = call(lambda: jax.tree_util.tree_map(np.asarray, ju.scan_in_dim(body_jnp(kind), jnp.asarray(init, jnp.int32), jnp.asarray(xs, jnp.int32), axis=axis[0], keepdims=keepdims)))
       if r1[0] != 'ok' or int(r1[1][0]) != want[0] or not np.array_equal(np.asarray(r1[1][1]), want[1]):
         ctx.violation('scan_in_dim-int-axis', f'scan_in_dim with axis={axis[0]} (int) differs from the loop on shape {shape}', {'kind': 'scan', 'shape': list(shape), 'axis': list(axis), 'keepdims': keepdims, 'body': kind, 'init': init})
   outs = drv.run(reqs)
@@ -1110,13 +1124,14 @@ def check_scan_in_dim(ctx, drv, cases):
     ctx.count('scan_rank_naxes', f'rank{len(shape)}-axes{len(axis)}')
     ctx.count('scan_keepdims', keepdims)
     ctx.count('scan_axis_sorted', 'sorted' if list(axis) == sorted(axis) else 'permuted')
+    ctx.count('scan_axis_sign', 'non-negative' if all(a >= 0 for a in axis) else ('all negative' if all(a < 0 for a in axis) else 'mixed'))
     if r[0] != 'ok':
-      ctx.violation('scan_in_dim-raises', f'scan_in_dim raised {r[1]} on {case}', case)
+      ctx.violation('scan_in_dim-raises' + ('-negative-axes' if any(a < 0 for a in axis) else ''), f'scan_in_dim raised {r[1]} on {case}', case)
       continue
     c, ys = int(r[1][0]), np.asarray(r[1][1])
     if c != want[0] or ys.shape != want[1].shape or not np.array_equal(ys, want[1]):
       ctx.violation(
-        'scan_in_dim-differs-from-loop' + ('-keepdims' if keepdims else '') + ('-permuted-axes' if list(axis) != sorted(axis) else ''),
+        'scan_in_dim-differs-from-loop' + ('-keepdims' if keepdims else '') + ('-permuted-axes' if list(axis) != sorted(axis) else '') + ('-negative-axes' if any(a < 0 for a in axis) else ''),
         f'scan_in_dim on {case}: carry {c} / ys shape {ys.shape}, nested loop gives carry {want[0]} / shape {want[1].shape}; ys equal: {ys.shape == want[1].shape and bool(np.array_equal(ys, want[1]))}',
         case,
       )
@@ -1129,12 +1144,19 @@ def check_scan_in_dim(ctx, drv, cases):
 
 def check_invert_perm(ctx, drv, max_n):
   perms = [list(p) for n in range(0, max_n + 1) for p in itertools.permutations(range(n))]
+  # entries written the negative way (-k = n-k), as scan_in_dim passes them on for negative axes
+  for n in range(1, min(max_n, 4) + 1):
+    for p in itertools.permutations(range(n)):
+      for signs in itertools.product([0, 1], repeat=n):
+        if any(signs):
+          perms.append([j - n if sg else j for j, sg in zip(p, signs)])
   outs = drv.run([('invert_perm', [p]) for p in perms])
   for p, m in zip(perms, outs):
     case = {'kind': 'invert_perm', 'perm': p}
     ctx.case(case, nontrivial=len(p) >= 2)
+    ctx.count('invert_perm_entries', 'non-negative' if all(j >= 0 for j in p) else 'with negative entries')
     r = call(ju._invert_perm, tuple(p))
-    if r[0] != 'ok' or any(r[1][p[i]] != i for i in range(len(p))) or len(r[1]) != len(p):
+    if r[0] != 'ok' or any(r[1][p[i] % len(p)] != i for i in range(len(p))) or len(r[1]) != len(p):
       ctx.violation('invert_perm-not-inverse', f'_invert_perm({p}) = {r}', case)
     elif m != ('ok', list(r[1])):
       ctx.disagreements_checked += 1
@@ -1280,11 +1302,27 @@ def scan_cases(rng, thorough):
   cases.append(((4,), (0,), False, 0, 1))
   cases.append(((4,), (0,), True, 0, 1))
   cases.append(((1, 3), (1, 0), False, 0, 2))
+  # negative and mixed axis entries (NumPy semantics -k = rank-k): every tuple of ranks 2 and 3 in every order with
+  # every sign pattern; bodies whose output has the rank of the input (a negative axis is relative to the array it is
+  # applied to, and transpose_out is applied to the result)
+  for shape in [(2, 3, 2), (3, 2)]:
+    rank = len(shape)
+    for k in range(1, rank + 1):
+      for pos in itertools.permutations(range(rank), k):
+        for signs in itertools.product([0, 1], repeat=k):
+          if any(signs):
+            axis = tuple(a - rank if sg else a for a, sg in zip(pos, signs))
+            keepdims = len(cases) % 2 == 0
+            cases.append((shape, axis, keepdims, 3 if keepdims else rng.choice([0, 3]), rng.randrange(0, 5)))
+            cases.append((shape, axis, not keepdims, 3, rng.randrange(0, 5)))
   # rank 4, sampled axis tuples
   all4 = [axis for k in range(1, 5) for axis in itertools.permutations(range(4), k)]
   for axis in rng.sample(all4, 40 if thorough else 14):
     shape = tuple(rng.choice([1, 2, 3]) for _ in range(4))
     cases.append((shape, axis, rng.random() < 0.5, rng.choice([0, 3, 3]), rng.randrange(0, 5)))
+    neg = tuple(a - 4 if rng.random() < 0.5 else a for a in axis)
+    if any(a < 0 for a in neg):
+      cases.append((shape, neg, rng.random() < 0.5, 3, rng.randrange(0, 5)))
   # bodies whose output rank differs from the slice rank (transpose_out uses the output's rank)
   for shape, axis in [((2, 3), (0,)), ((2, 3), (1, 0)), ((3, 2), (0, 1)), ((2, 2, 3), (1, 0))]:
     if all(a < len(axis) for a in axis):
